@@ -107,6 +107,20 @@ class Result:
         }
 
 
+def scaled_budget(quick, tier, factor, noscale=(), deadline_s=1500, case_timeout_s=None):
+    """thorough tier = the quick workload scaled by `factor` (more cases => more seeds, shapes, interleavings);
+    monitor floors scale with it (x0.6 margin) except those in `noscale`."""
+    b = dict(quick)
+    if tier != "thorough":
+        return b
+    b["cases"] = int(quick["cases"] * factor)
+    b["deadline_s"] = deadline_s
+    if case_timeout_s:
+        b["case_timeout_s"] = case_timeout_s
+    b["floors"] = {k: (v if k in noscale else int(v * factor * 0.6)) for k, v in quick.get("floors", {}).items()}
+    return b
+
+
 def load_check(prop):
     return importlib.import_module("vlib.checks." + prop.lower())
 
